@@ -4,6 +4,7 @@ open Rosmar Rosmar.Driver
 inductive Mode where
   | kv (s : State)
   | reg (r : Rosmar.Registry.Reg)
+  | life (l : Rosmar.FeedLife.Life)
 
 partial def loop (h : IO.FS.Stream) (out : IO.FS.Stream) (m : Mode) : IO Unit := do
   let line ← h.getLine
@@ -15,12 +16,18 @@ partial def loop (h : IO.FS.Stream) (out : IO.FS.Stream) (m : Mode) : IO Unit :=
     let l := parseLine line
     if l.op = "begin" then
       out.putStrLn "begin"
-      if l.str "kind" = "reg" then loop h out (.reg {}) else loop h out (.kv initState)
+      if l.str "kind" = "reg" then loop h out (.reg {})
+      else if l.str "kind" = "life" then loop h out (.life { onDisk := l.flag "disk", openHandles := ["h0"] })
+      else loop h out (.kv initState)
     else if l.op = "end" then
       out.putStrLn "end"
       loop h out (.kv initState)
     else
       match m with
+      | .life st =>
+        let (st', s) := lifeLine st l
+        out.putStrLn s
+        loop h out (.life st')
       | .reg r =>
         let (r', s) := regLine r l
         out.putStrLn s
